@@ -7,6 +7,8 @@ import (
 	"os"
 	"path/filepath"
 	"runtime"
+	rdebug "runtime/debug"
+	"runtime/pprof"
 	"sort"
 	"strconv"
 	"strings"
@@ -32,6 +34,7 @@ type CheckCfg struct {
 	Bounds         map[string]string `json:"bounds"`
 	Workers        int      `json:"workers"`
 	EagerSSA       bool     `json:"eager_ssa"` // build all SSA before exploring (see load.go)
+	ConcIndexMax   int      `json:"concretize_index_max"` // symbolic indices into slices/arrays of at most this many cells are forked over instead of merged
 }
 
 func loadChecks() (map[string]*CheckCfg, error) {
@@ -147,6 +150,12 @@ func cmdCheck(args []string) int {
 	}
 	seed, _ := strconv.Atoi(os.Getenv("VERIF_SEED"))
 	t0 := time.Now()
+	if pf := os.Getenv("SYMGO_PROF"); pf != "" {
+		if f, err := os.Create(pf); err == nil {
+			pprof.StartCPUProfile(f)
+			defer pprof.StopCPUProfile()
+		}
+	}
 
 	checks, err := loadChecks()
 	if err != nil {
@@ -216,6 +225,9 @@ func cmdCheck(args []string) int {
 	// a worker returning from a pipe read (solver answer) must find a free P at once, otherwise it waits for
 	// the 10 ms preemption tick of another CPU-bound worker: keep more Ps than workers
 	runtime.GOMAXPROCS(2*nw + 4)
+	if os.Getenv("GOGC") == "" {
+		rdebug.SetGCPercent(400) // allocation-heavy interpreter, plenty of memory: collect less often
+	}
 	budget := cfg.QuickSecs
 	if budget == 0 {
 		budget = 240
@@ -237,7 +249,7 @@ func cmdCheck(args []string) int {
 	var results []*HarnessResult
 	for _, fn := range fns {
 		h := &Harness{Name: fn.Name(), Prop: id, Pkg: cfg.Pkg, Tier: tierN, MapOrderMax: cfg.MapOrderMax, MaxThreads: cfg.MaxThreads,
-			MaxSchedPoints: cfg.MaxSchedPoints, MaxDecisions: cfg.MaxDecisions, KnownActive: knownActive}
+			MaxSchedPoints: cfg.MaxSchedPoints, MaxDecisions: cfg.MaxDecisions, KnownActive: knownActive, ConcIndexMax: cfg.ConcIndexMax}
 		if h.MaxThreads == 0 {
 			h.MaxThreads = 8
 		}
